@@ -5,6 +5,7 @@ package econst
 // of the arithmetic packages must appear here (complete.go fails otherwise).
 
 import (
+	"voicheck/load"
 	"bytes"
 	"fmt"
 	"go/token"
@@ -484,7 +485,7 @@ func qualifiedObj(o types.Object) string {
 	if o == nil || o.Pkg() == nil {
 		return ""
 	}
-	return relOf(o.Pkg()) + "." + o.Name()
+	return relOf(o.Pkg()) + "." + load.ObjSimpleName(o)
 }
 
 // ---------------------------------------------------------------------------
